@@ -87,3 +87,20 @@ def search_pattern_finds(vpattern, raw_pattern, text):
     mod = v1patterns if is_legacy(vpattern) else v2patterns
     rx = mod.compile_pattern(vpattern, raw_pattern).regexp
     return rx.search(text) is not None
+
+
+def search_pattern_round_trip(vpattern, raw_pattern, vtext):
+    """What bumpver's rewrite step renders for one search pattern and the version vtext, and whether the recogniser
+    compiled from that same pattern accepts the rendering in full.  -> (rendered, accepted) or None when vtext itself
+    cannot be read (the version-level round trip reports that)."""
+    v2version, v2patterns, v1version, v1patterns, _version, _config = _mods()
+    legacy = is_legacy(vpattern)
+    pmod, vmod = (v1patterns, v1version) if legacy else (v2patterns, v2version)
+    try:
+        vinfo = vmod.parse_version_info(vtext, vpattern)
+    except Exception:
+        return None
+    pat = pmod.compile_pattern(vpattern, raw_pattern)
+    rendered = vmod.format_version(vinfo, pat.raw_pattern)
+    m = pat.regexp.search(rendered)
+    return rendered, (m is not None and m.start() == 0 and m.end() == len(rendered))
